@@ -1,4 +1,15 @@
 import Ufw.Props.C19
+import Ufw.Tie.Ring.AdvanceHead
+import Ufw.Tie.Ring.AdvanceTail
+import Ufw.Tie.Ring.Size
+import Ufw.Tie.Ring.Empty
+import Ufw.Tie.Ring.Full
+import Ufw.Tie.Ring.Clear
+import Ufw.Tie.Ring.Get
+import Ufw.Tie.Ring.Put
+import Ufw.Tie.Ring.Override
+import Ufw.Tie.Ring.IterDone
+import Ufw.Tie.Ring.IterAdvance
 #print axioms Ufw.Props.C19.length_abs
 #print axioms Ufw.Props.C19.step_refines
 #print axioms Ufw.Props.C19.iter_old_to_new
@@ -7,3 +18,16 @@ import Ufw.Props.C19
 #print axioms Ufw.Props.C19.init_spec
 #print axioms Ufw.Props.C19.size_empty_full
 #print axioms Ufw.Props.C19.iterators_faithful
+#print axioms Ufw.Tie.Ring.gen_advance_head
+#print axioms Ufw.Tie.Ring.gen_advance_tail
+#print axioms Ufw.Tie.Ring.gen_size
+#print axioms Ufw.Tie.Ring.gen_empty
+#print axioms Ufw.Tie.Ring.gen_full
+#print axioms Ufw.Tie.Ring.gen_clear
+#print axioms Ufw.Tie.Ring.gen_get
+#print axioms Ufw.Tie.Ring.gen_push
+#print axioms Ufw.Tie.Ring.advance_tail_fit
+#print axioms Ufw.Tie.Ring.gen_put
+#print axioms Ufw.Tie.Ring.gen_override
+#print axioms Ufw.Tie.Ring.gen_iter_done
+#print axioms Ufw.Tie.Ring.gen_iter_advance
